@@ -131,6 +131,7 @@ def run(prog, chk):
     chk.rule(depth_test_unconditional, prog, chk)
     from props import C06, C07
     chk.rule(C06.config_single_writer, prog, chk)  # the limits in force are the configuration's: nothing but set_config replaces it (a saved copy restored later undoes a <config>)
+    chk.rule(limit_error_rendering_cannot_panic, prog, chk)
     if "server" in prog.features:
         C07.server_stack(prog, chk)  # the depth limit is sized for the stack the transform runs on, in every front-end
 
@@ -1225,3 +1226,17 @@ def specs_flag_pairing(prog, chk):
             esc = R.escapes(body, (x, i), closes, closed_edges=closed_edges)
             chk.ob(not esc, "A5.specs-flag", f"{body.short}:in_specs", body.where(x, line), f"every exit after `in_specs` is set passes one of the {len(closes)} place(s) that clear / restore it", f"{len(esc)} exit(s) of {body.short} leave `in_specs` set (lines {R.path_lines(body, esc[0])[-4:] if esc else ''}): the next <specs> block of the document is rejected as nested although none is open")
     chk.floor("A5.specs-flag", n, 1, "place that sets in_specs")
+
+
+
+def limit_error_rendering_cannot_panic(prog, chk):
+    """"rejected with an error - never a crash": what turns a limit error into its message (the Display / Debug / From
+    impls of the error module) has no panic-capable site that no guard rule covers - a message abbreviated with a byte
+    slice (`&name[..24]`) panics on the very input that exceeds the limit"""
+    from props import C01 as _C01
+    reach = {b.id for b in prog.bodies.values() if b.unit == "svgdx-lib" and (b.file or "").endswith("src/errors.rs")}
+    if not reach:
+        chk.undecided("A2.panic-site", "errors", "src/errors.rs", "no function of the error module found")
+        return
+    _C01.panic_sites(prog, chk, reach, floor=None)
+    chk.ok("A2.panic-site", "errors:scan", "src/errors.rs", f"{len(reach)} function(s) of the error module examined for panic-capable sites")
